@@ -271,6 +271,10 @@ def run(pm, ctx):
     run_decisions(pm, ctx, 'C05-RD', OWN['C05'])
     from .. import exprdrift
     exprdrift.run(pm, ctx, 'C05-RE', OWN['C05'])
+    from ..conddrift import run_calls
+    run_calls(pm, ctx, 'C05-RC', OWN['C05'])
+    from .. import memo
+    memo.run(pm, ctx, 'C05-MK', OWN['C05'])
     ctx.import_rules(pm, 'C04', {'C04-R4'}, 'C05-R7',
                      'the encoder walks the field table of the declared type (shared with C04-R4)')
     ctx.import_rules(pm, 'C08', {'C08-R6'}, 'C05-R8',
